@@ -1,5 +1,7 @@
 """Self-test variants for C05 (the import hook preserves program meaning)."""
-from .variant import Variant, seeded, neutral, sub, chain
+import ast
+
+from .variant import Variant, seeded, neutral, sub, chain, tseeded, replace_where, expr, stmts
 
 MAIN = 'beartype/claw/_ast/clawastmain.py'
 ASG = 'beartype/claw/_ast/_kind/clawastassign.py'
@@ -61,6 +63,17 @@ VARIANTS = {
     # ---- R7 -------------------------------------------------------------------------
     'placement-first-inserts-nothing': seeded(IMP, "        elif decoration_position is BeartypeDecorPlace.FIRST:\n            node.decorator_list.append(node_beartype_decorator)",
                                               "        elif decoration_position is BeartypeDecorPlace.FIRST:\n            if node.decorator_list:\n                node.decorator_list.append(node_beartype_decorator)", 'C05.R7'),
+    # ---- R7 placement / R3 factories / R9 single evaluation (from round-2 seeded changes) ----------
+    'class-and-callable-positions-swapped': tseeded(IMP, lambda t: replace_where(
+        t, lambda n: isinstance(n, ast.IfExp) and 'claw_decor_place_type' in ast.unparse(n),
+        lambda n: expr('conf.claw_decor_place_func if isinstance(node, ClassDef) else conf.claw_decor_place_type'),
+        scope='_decorate_node_beartype'), 'C05.R7', 'classes are decorated at the position configured for callables and vice versa'),
+    'first-and-last-swapped': tseeded(IMP, lambda t: replace_where(
+        t, lambda n: isinstance(n, ast.Expr) and ast.unparse(n) == 'node.decorator_list.insert(0, node_beartype_decorator)',
+        lambda n: stmts('node.decorator_list.append(node_beartype_decorator)')[0], scope='_decorate_node_beartype'), 'C05.R7'),
+    'factory-relocates-its-arguments': seeded(MAKE, "    copy_node_metadata(node_src=node_sibling, node_trg=node_func_call)\n",
+                                              "    copy_node_metadata(node_src=node_sibling, node_trg=(node_func_call, *nodes_args))\n", 'C05.R3',
+                                              'the annotation node shared with the original statement gets the line number of the statement'),
     # ---- neutral --------------------------------------------------------------------
     'n-annassign-return-tuple': neutral(ASG, "        return [node, node_func]", "        return (node, node_func)"),
     'n-visit-param-renamed': Variant('neutral', [MAIN], (lambda files: _rename_classdef_param(files)), None, 'parameter of visit_ClassDef renamed'),
